@@ -497,6 +497,7 @@ pub fn run_loop(cfg: &RunCfg, trace_on: bool, full: bool, monitor: Monitor) -> R
                     return cx.finish();
                 }
                 cx.exec.roots[0] = cx.built[0].root.clone();
+                cx.exec.kept.clear();
                 cx.out.count("fault.restart_adapters_rebuilt");
             }
             let got = cx.exec.exec(op);
